@@ -524,3 +524,33 @@ pub fn determinism_check<E: Engine>(ctx: &Ctx, eng: &E, n: u64) -> Vec<(u64, Str
     });
     bad.into_inner().unwrap()
 }
+
+/// Print `seed hash verdict` for the first `n` runs (cross-process determinism: diff the outputs of two processes).
+pub fn print_hashes<E: Engine>(ctx: &Ctx, eng: &E, n: u64) {
+    panics::install();
+    let next = AtomicU64::new(0);
+    let label = format!("{}/{}", ctx.prop, eng.name());
+    let rows: Mutex<Vec<(u64, String)>> = Mutex::new(Vec::new());
+    std::thread::scope(|s| {
+        for _ in 0..ctx.threads {
+            s.spawn(|| {
+                loop {
+                    let i = next.fetch_add(1, Ordering::Relaxed);
+                    if i >= n {
+                        break;
+                    }
+                    let seed = mix(ctx.root_seed, &label, i);
+                    let case = eng.generate(i, seed, ctx.tier);
+                    let a = exec_guarded(eng, &case, seed);
+                    let sa: Vec<String> = a.violations.iter().map(|v| v.signature()).collect();
+                    rows.lock().unwrap().push((i, format!("{i} {seed} {:016x} {sa:?} {:?}", a.trace_hash, a.stats.0)));
+                }
+            });
+        }
+    });
+    let mut rows = rows.into_inner().unwrap();
+    rows.sort();
+    for (_, r) in rows {
+        println!("HASH {} {r}", eng.name());
+    }
+}
